@@ -330,7 +330,7 @@ class StmtMixin:
             iv = interval(idx)
             safe = iv is not None and iv[0] is not None and iv[1] is not None and 0 <= iv[0] and iv[1] < len(items)
             self.event(st, fr, "index", node, (base, idx, len(items), safe))
-            if safe and iv[1] - iv[0] <= 8:
+            if safe and iv[1] - iv[0] <= (255 if getattr(self, "big_tables", False) and all(isinstance(norm(i_), Const) for i_ in items) else 8):
                 cands = items[iv[0]: iv[1] + 1]
                 if all(c.key() == cands[0].key() for c in cands):
                     return cands[0]
@@ -861,6 +861,25 @@ class StmtMixin:
                             nxt.append(("raise", s2, vals))
                             continue
                         base = vals[0]
+                        if isinstance(tg.slice, ast.Slice) and isinstance(base, Ref) and base.kind in ("list", "bytearray") and not s2.heap[base.ident].opaque and tg.slice.step is None:
+                            # `del x[a:b]` / `del x[:]` with constant (or absent) bounds on a known list
+                            bounds, okb = [], True
+                            for bnd in (tg.slice.lower, tg.slice.upper):
+                                if bnd is None:
+                                    bounds.append(None)
+                                    continue
+                                r_ = self.ev(bnd, s2, fr)
+                                c_ = const_of(norm(r_[0][1])) if len(r_) == 1 and not isinstance(r_[0][1], Raised) else None
+                                okb = okb and isinstance(c_, int)
+                                bounds.append(c_)
+                            if okb:
+                                cell = s2.heap[base.ident]
+                                gone = cell.items[bounds[0]:bounds[1]]
+                                del cell.items[bounds[0]:bounds[1]]
+                                self.event(s2, fr, "delslice", tg, (base, tuple(bounds), path_text(tg.value), len(gone)))
+                                self.note_mutation(s2, fr, tg, base)
+                                nxt.append(("next", s2, None))
+                                continue
                         self.event(s2, fr, "delitem", tg, (base, vals[1] if len(vals) > 1 else None, path_text(tg.value)))
                         if isinstance(base, Ref) and base.kind in ("list", "bytearray", "dict"):
                             cell = s2.heap[base.ident]
